@@ -186,13 +186,13 @@ pub fn c09(tier: Tier) -> PropSpec {
         parts: vec![
             Part::new(
                 "small",
-                tier.pick(1500, 30000),
+                tier.pick(20000, 200000),
                 || crate::props::sem::sem_case(1, 7),
                 c09_check,
             ),
             Part::new(
                 "large",
-                tier.pick(150, 5000),
+                tier.pick(1500, 15000),
                 || {
                     (
                         gen::adf_case(
@@ -422,10 +422,10 @@ pub fn c10(tier: Tier) -> PropSpec {
         assumptions: vec!["labels avoid blanks and brackets so printed lines can be tokenised; biodivine-hostile labels excluded (K1)"],
         exhaustive: false,
         parts: vec![
-            Part::new("small", tier.pick(1500, 25000), || meta_case(gen::adf_small(1, 7)), c10_check),
+            Part::new("small", tier.pick(12000, 120000), || meta_case(gen::adf_small(1, 7)), c10_check),
             Part::new(
                 "medium",
-                tier.pick(150, 1500),
+                tier.pick(800, 8000),
                 || meta_case(gen::adf_large(8, 24, 4, 3)),
                 c10_check,
             ),
